@@ -73,6 +73,14 @@ class FsExecutor(object):
         self.next_fd = 3 + npreopen
         self.last_positional = {}
 
+    def set_edge(self, mode):
+        """mode > 0: from now on one guest object per WASI call (chosen deterministically from mode and the call counter) is placed
+        so that it ends exactly at the end of guest memory (wasi.Agent._call_edge)"""
+        self.history.append(['set_edge', mode])
+        self.agent.edge_mode = mode
+        if mode:
+            self.flags.add('objects_at_end_of_guest_memory')
+
     # ---- helpers
     def close(self):
         try:
@@ -241,7 +249,35 @@ class FsExecutor(object):
         # the lseek-based emulation and pread(2)/pwrite(2) legitimately differ there and no realistic caller depends on it
         if self.fds[fd].get('chr') and offset >= (1 << 40):
             return 1 << 33
+        if offset >= (1 << 63):
+            self.flags.add('offset>=2^63')
         return offset
+
+    @staticmethod
+    def _libc_pv(fd, bufs, offset, write):
+        """preadv(2) / pwritev(2) through libc for offsets >= 2^63 (negative off_t): Python's os.preadv goes through preadv2, where
+        offset -1 means 'current position'; the plain system calls reject every negative offset with EINVAL"""
+        import ctypes
+
+        class IoVec(ctypes.Structure):
+            _fields_ = [('base', ctypes.c_void_p), ('len', ctypes.c_size_t)]
+        libc = ctypes.CDLL(None, use_errno=True)
+        fn = libc.pwritev if write else libc.preadv
+        fn.argtypes = [ctypes.c_int, ctypes.POINTER(IoVec), ctypes.c_int, ctypes.c_int64]
+        fn.restype = ctypes.c_ssize_t
+        keep = [ctypes.create_string_buffer(bytes(b), max(len(b), 1)) for b in bufs]
+        arr = (IoVec * max(len(bufs), 1))()
+        for i, b in enumerate(bufs):
+            arr[i].base = ctypes.cast(keep[i], ctypes.c_void_p)
+            arr[i].len = len(b)
+        r = fn(fd, arr, len(bufs), offset - (1 << 64))
+        if r < 0:
+            e = ctypes.get_errno()
+            raise OSError(e, os.strerror(e))
+        if not write:
+            for i, b in enumerate(bufs):
+                b[:] = keep[i].raw[:len(b)]
+        return r
 
     def fd_pwrite(self, fd, bufs, offset):
         offset = self._dev_offset(fd, offset)
@@ -253,7 +289,7 @@ class FsExecutor(object):
         err = None
         want = 0
         try:
-            want = os.pwritev(d['mfd'], bufs, offset if offset < (1 << 63) else offset - (1 << 64))      # off_t is signed
+            want = os.pwritev(d['mfd'], bufs, offset) if offset < (1 << 63) else self._libc_pv(d['mfd'], bufs, offset, True)
         except OSError as e:
             err = e
         self.check_errno('fd_pwrite(fd=%d, %d iovecs, offset=%d)' % (fd, len(bufs), offset), r, err)
@@ -315,7 +351,7 @@ class FsExecutor(object):
         err = None
         want = 0
         try:
-            want = os.preadv(d['mfd'], bufs, offset if offset < (1 << 63) else offset - (1 << 64))
+            want = os.preadv(d['mfd'], bufs, offset) if offset < (1 << 63) else self._libc_pv(d['mfd'], bufs, offset, False)
         except OSError as e:
             err = e
         self.check_errno('fd_pread(fd=%d, lens=%r, offset=%d)' % (fd, lens, offset), r, err)
@@ -385,8 +421,10 @@ class FsExecutor(object):
 
     def compare_stat(self, what, st, unstable):
         raw = self.agent.peek(STATBUF, 72)
-        if raw[64:] != bytes([CANARY] * 8):
-            self.fail('guest-overwrite', '%s wrote past the 64-byte filestat record' % what)
+        # record size: preview1 64 bytes; wasi_unstable (snapshot 0) 56 bytes (its link count is a u32 at offset 20)
+        rec = 56 if unstable else 64
+        if raw[rec:] != bytes([CANARY] * (72 - rec)):
+            self.fail('guest-overwrite', '%s wrote past the %d-byte %s filestat record' % (what, rec, 'unstable' if unstable else 'preview1'))
         ft = 3 if stat.S_ISDIR(st.st_mode) else 4 if stat.S_ISREG(st.st_mode) else 7 if stat.S_ISLNK(st.st_mode) else \
             2 if stat.S_ISCHR(st.st_mode) else 1 if stat.S_ISBLK(st.st_mode) else 0
         if unstable:
@@ -643,10 +681,23 @@ class FsExecutor(object):
         rdir = d['path']
         try:
             if d.get('ino') is not None and os.stat(rdir).st_ino != d['ino']:
-                return
+                raise OSError('replaced')
             names = os.listdir(rdir)
         except OSError:
-            return          # the directory was renamed / removed after the descriptor was opened: nothing specified to compare
+            # the directory was renamed / removed after the descriptor was opened: no listing is specified, but the call is still
+            # made (cookie 0 = restart): whatever it answers, the host must stay memory-safe now and at the later fd_close
+            a = self.agent
+            bufsize = max(bufsize, 64)
+            a.fill(DIRBUF, bufsize + 16)
+            a.fill(RES, 16)
+            r = a.call('fd_readdir', 0, fd, DIRBUF, bufsize, 0, RES)
+            if r == 0:
+                if a.peek_u32(RES) > bufsize:
+                    self.fail('readdir-used', 'fd_readdir reported %d used bytes for a %d-byte buffer' % (a.peek_u32(RES), bufsize))
+                if a.peek(DIRBUF + bufsize, 8) != bytes([CANARY] * 8):
+                    self.fail('guest-overwrite', 'fd_readdir wrote past its buffer')
+            self.flags.add('readdir_on_vanished_directory')
+            return
         maxname = max([len(os.fsencode(n)) for n in names] + [2])
         bufsize = max(bufsize, 24 + maxname)          # "any buffer size that can hold one entry"
         entries, calls = self._listing(fd, bufsize, 0)
